@@ -170,7 +170,7 @@ PROPERTIES["C01"] = dict(
             "parser_utility.rs": "spl_frontend/src/parser/utility.rs",
             "parser.rs": "spl_frontend/src/parser.rs",
             "ast_traverser.rs": "spl_frontend/src/ast/ast_info_traverser.rs"},
-    functions={"spl_frontend/src/ast/ast_info_traverser.rs": ["impl AstInfoTraverser for Expression::traverse_mut", "impl AstInfoTraverser for Statement::traverse_mut"],
+    functions={"spl_frontend/src/ast/ast_info_traverser.rs": ["impl AstInfoTraverser for Expression::traverse_mut", "impl AstInfoTraverser for Variable::traverse_mut", "impl AstInfoTraverser for ArrayAccess::traverse_mut", "impl AstInfoTraverser for UnaryExpression::traverse_mut", "impl AstInfoTraverser for BracketedExpression::traverse_mut", "impl AstInfoTraverser for BinaryExpression::traverse_mut"],
                "spl_frontend/src/tokens.rs": ["new_token_pos", "out_of_range", "deletes", "overlaps", "location_offset", "advance", "get_old_reference"],
                "spl_frontend/src/parser/utility.rs": ["affected", "info"],
                "spl_frontend/src/parser.rs": ["impl<T: Parser> Parser for Reference<T>::parse"]},
